@@ -87,3 +87,9 @@ impl RecvRateSet {
     }
 }
 
+#[cfg(uflow_verif)]
+impl RecvRateSet {
+    pub fn verif_len(&self) -> usize {
+        self.entries.len()
+    }
+}
